@@ -80,13 +80,13 @@ def run(tier: str, seed: int, replay=None) -> int:
     q = tier == "quick"
     plan = {
         "rule": RULE, "assumptions": ASSUMPTIONS,
-        "design": ([("MPSLifeMC_arch_quick", 180, 3, "arch"), ("MPSLifeMC_tuples_quick", 120, 1, "tuples"),
-                    ("MPSLifeMC_ne16_quick", 140, 2, "ne16"), ("MPSLifeMC_pc_quick", 320, 40, "perchannel"),
-                    ("MPSLifeMC_d1_quick", 120, 3, "arch1d"), ("MPSLifeMC_d1pc_quick", 160, 40, "perchannel1d"),
-                    ("MPSLifeMC_reuse_quick", 105, 3, "reuse"), ("MPSLifeMC_hist_quick", 240, 40, "histories"),
-                    ("MPSLifeMC_modes_quick", 160, 40, "modes"), ("MPSLifeMC_export_quick", 90, 30, "weightsteps"),
-                    ("MPSLifeMC_opts_quick", 75, 3, "convopts"),
-                    ("MPSLifeMC_fork_quick", 120, 30, "fork")] if q else
+        "design": ([("MPSLifeMC_arch_quick", 150, 3, "arch"), ("MPSLifeMC_tuples_quick", 90, 1, "tuples"),
+                    ("MPSLifeMC_ne16_quick", 100, 2, "ne16"), ("MPSLifeMC_pc_quick", 260, 40, "perchannel"),
+                    ("MPSLifeMC_d1_quick", 90, 3, "arch1d"), ("MPSLifeMC_d1pc_quick", 120, 40, "perchannel1d"),
+                    ("MPSLifeMC_reuse_quick", 75, 3, "reuse"), ("MPSLifeMC_hist_quick", 180, 40, "histories"),
+                    ("MPSLifeMC_modes_quick", 120, 40, "modes"), ("MPSLifeMC_export_quick", 70, 30, "weightsteps"),
+                    ("MPSLifeMC_opts_quick", 60, 3, "convopts"),
+                    ("MPSLifeMC_fork_quick", 90, 30, "fork")] if q else
                    [("MPSLifeMC_arch_quick", 0, 0, "arch"), ("MPSLifeMC_arch_thorough", 1500, 3, "arch4"),
                     ("MPSLifeMC_tuples_thorough", 2000, 2, "tuples"), ("MPSLifeMC_ne16_quick", 2000, 2, "ne16"),
                     ("MPSLifeMC_few_thorough", 1200, 3, "few"), ("MPSLifeMC_pc_quick", 4500, 500, "perchannel"),
@@ -98,7 +98,7 @@ def run(tier: str, seed: int, replay=None) -> int:
                     ("MPSLifeMC_opts_quick", 0, 0, "convopts"), ("MPSLifeMC_opts1d_quick", 0, 0, "convopts1d"),
                     ("MPSLifeMC_fork_thorough", 1500, 100, "fork")]),
         "sanity": ["MPSLifeMC_nokf05", "MPSLifeMC_pinned", "MPSLifeMC_cachefwd", "MPSLifeMC_sharedfork"],
-        "n_random": 60 if q else 700, "random_sels": 2 if q else 3, "max_nodes": 9 if q else 12, "p_pc": 0.5,
+        "n_random": 50 if q else 700, "random_sels": 2 if q else 3, "max_nodes": 9 if q else 12, "p_pc": 0.5,
         "procs": 8, "tlc_workers": 8,
     }
     return mps_gen.run_check("C05", tier, seed, replay, plan)
